@@ -56,6 +56,7 @@ func init() {
 		c02Panics(x)
 		c02Lookups(x)
 		c02Writers(x)
+		c02Readers(x)
 		return nil
 	})
 }
@@ -1059,6 +1060,134 @@ func c02Writers(x *X) {
 	}
 	sort.Strings(sites)
 	x.defStrList("setTableCallers", sites)
+}
+
+// c02GoDirs: every directory of the repository that holds non-test, non-verif Go files.
+func c02GoDirs(x *X) []string {
+	var dirs []string
+	filepath.Walk(x.repo, func(path string, info os.FileInfo, err error) error {
+		if err != nil {
+			return nil
+		}
+		if info.IsDir() {
+			n := info.Name()
+			if path != x.repo && (strings.HasPrefix(n, ".") || strings.HasPrefix(n, "_") || n == "vendor" || n == "testdata" || n == "docs" || n == "demo" || n == "build") {
+				return filepath.SkipDir
+			}
+			ents, _ := os.ReadDir(path)
+			for _, e := range ents {
+				if !e.IsDir() && strings.HasSuffix(e.Name(), ".go") && !strings.HasSuffix(e.Name(), "_test.go") && !strings.HasPrefix(e.Name(), "verif_") {
+					rel, _ := filepath.Rel(x.repo, path)
+					dirs = append(dirs, rel)
+					break
+				}
+			}
+		}
+		return nil
+	})
+	sort.Strings(dirs)
+	return dirs
+}
+
+// c02Readers (round 4): who calls route.GetTable, anywhere in the repository. The cell model gives a lookup ONE load
+// micro-step; `lookupClosures` pinned that for the function literals of main.go only, the gRPC director
+// (proxy/grpc_handler.go) and anything inside package route were not looked at. For every INNERMOST function (a
+// declaration or a function literal; calls inside a nested literal belong to the literal) that calls route.GetTable
+// (import alias resolved; the bare name inside package route): the number of GetTable calls and the number of
+// Lookup / LookupHost calls on something that is not an imported package (net.LookupHost is no table lookup).
+//   lookupSites      — functions that load AND look up: "dir:getTable=N:lookups=M"
+//   snapshotReaders  — functions that load without looking up (admin API dump, dynamic TCP listeners, gRPC pool
+//                      cleanup): informational, not part of an obligation
+//   routeGetTableCallers — functions of package route itself that call GetTable (a Lookup that re-loads the cell
+//                      half-way would combine two tables)
+func c02Readers(x *X) {
+	var sites, snaps, inRoute []string
+	for _, dir := range c02GoDirs(x) {
+		for _, f := range x.files(dir) {
+			name := ""
+			pkgs := map[string]bool{}
+			for _, im := range f.Imports {
+				p, _ := strconv.Unquote(im.Path.Value)
+				local := p[strings.LastIndex(p, "/")+1:]
+				if im.Name != nil {
+					local = im.Name.Name
+				}
+				pkgs[local] = true
+				if dir != "route" && strings.HasSuffix(p, "/fabio/route") {
+					name = local
+				}
+			}
+			if dir != "route" && (name == "" || name == "_") {
+				continue
+			}
+			isGet := func(c *ast.CallExpr) bool {
+				if dir == "route" {
+					id, ok := c.Fun.(*ast.Ident)
+					return ok && id.Name == "GetTable"
+				}
+				se, ok := c.Fun.(*ast.SelectorExpr)
+				if !ok {
+					return false
+				}
+				id, ok := se.X.(*ast.Ident)
+				return ok && id.Name == name && se.Sel.Name == "GetTable"
+			}
+			isLookup := func(c *ast.CallExpr) bool {
+				se, ok := c.Fun.(*ast.SelectorExpr)
+				if !ok || (se.Sel.Name != "Lookup" && se.Sel.Name != "LookupHost") {
+					return false
+				}
+				if id, ok := se.X.(*ast.Ident); ok && pkgs[id.Name] && id.Obj == nil {
+					return false
+				}
+				return true
+			}
+			var visit func(body ast.Node, fname string)
+			visit = func(body ast.Node, fname string) {
+				gets, looks := 0, 0
+				ast.Inspect(body, func(m ast.Node) bool {
+					switch v := m.(type) {
+					case *ast.FuncLit:
+						if v.Body != body {
+							visit(v.Body, fname)
+							return false
+						}
+					case *ast.CallExpr:
+						if isGet(v) {
+							gets++
+						}
+						if isLookup(v) {
+							looks++
+						}
+					}
+					return true
+				})
+				if gets == 0 {
+					return
+				}
+				if dir == "route" {
+					inRoute = append(inRoute, fname)
+				}
+				e := dir + ":getTable=" + itoa(gets) + ":lookups=" + itoa(looks)
+				if looks > 0 {
+					sites = append(sites, e)
+				} else {
+					snaps = append(snaps, e)
+				}
+			}
+			for _, d := range f.Decls {
+				if fd, ok := d.(*ast.FuncDecl); ok && fd.Body != nil {
+					visit(fd.Body, fd.Name.Name)
+				}
+			}
+		}
+	}
+	sort.Strings(sites)
+	sort.Strings(snaps)
+	sort.Strings(inRoute)
+	x.defStrList("lookupSites", sites)
+	x.defStrList("snapshotReaders", snaps)
+	x.defStrList("routeGetTableCallers", inRoute)
 }
 
 func itoa(n int) string {
